@@ -247,6 +247,8 @@ def gen_tod(tier):
             pts = [h for h in hs] + [6 + h for h in hs]
             for kind in ('series', 'frame'):
                 yield {'pts': pts, 'kind': kind}
+            if r in ((3, 6) if tier == 'quick' else (1, 2, 3, 4, 5, 6)):
+                yield {'pts': pts, 'kind': 'series', 'sub': True}            # the sub-second grid
     if tier == 'thorough':
         # every subset of the 12 points (Series); the symmetric ones were done above
         for m in range(1 << 12):
@@ -263,17 +265,32 @@ def gen_tod(tier):
                     yield {'pts': list(hs) + list(range(6, 12)), 'kind': 'series'}
 
 
+# a second grid inside two seconds around 10:00:00, with bounds on whole seconds, on the points and between them: the time of day is compared
+# to the microsecond, not to the second
+SUBGRID = [datetime.time(9, 59, 59, 750000), datetime.time(10, 0, 0), datetime.time(10, 0, 0, 250000), datetime.time(10, 0, 0, 500000),
+           datetime.time(10, 0, 1), datetime.time(10, 0, 1, 250000)]
+SUBBOUNDS = [None, datetime.time(9, 59, 59), datetime.time(9, 59, 59, 750000), datetime.time(9, 59, 59, 900000), datetime.time(10, 0, 0),
+             datetime.time(10, 0, 0, 100000), datetime.time(10, 0, 0, 250000), datetime.time(10, 0, 0, 750000), datetime.time(10, 0, 1),
+             datetime.time(10, 0, 1, 250000), datetime.time(10, 0, 2)]
+
+
 def check_tod(case):
     from pyg_base import df_slice
     out = Out()
     pts, kind = case['pts'], case['kind']
-    stamps = [BASE + (i // 6) * DAY + datetime.timedelta(hours=HOURS[i % 6]) for i in pts]
-    present = set(HOURS[i % 6] for i in pts)
+    if case.get('sub'):
+        grid = SUBGRID
+        bounds = SUBBOUNDS
+    else:
+        grid = [datetime.time(h, 0) for h in HOURS]
+        bounds = [None if h is None else datetime.time(h, 0) for h in TBOUNDS]
+    stamps = [datetime.datetime.combine((BASE + (i // 6) * DAY).date(), grid[i % 6]) for i in pts]
+    present = set(grid[i % 6] for i in pts)
     subj = _Subject(kind, stamps, pts)
-    for lh in TBOUNDS:
-        lb = None if lh is None else datetime.time(lh, 0)
-        for uh in TBOUNDS:
-            ub = None if uh is None else datetime.time(uh, 0)
+    for lh in bounds:
+        lb = lh
+        for uh in bounds:
+            ub = uh
             wrap = lb is not None and ub is not None and lb > ub
             on_point = lh in present or uh in present
             cat = 'wrap' if wrap else 'bound-on-point' if on_point else ('unbounded' if lb is None and ub is None else 'bound-between')
@@ -285,7 +302,7 @@ def check_tod(case):
                     keep = [_keep(t.time(), lb, None, lc, uc) or _keep(t.time(), None, ub, lc, uc) for t in stamps]
                 else:
                     keep = [_keep(t.time(), lb, ub, lc, uc) for t in stamps]
-                label = 'df_slice(%s %s, %s, %s, %r)' % (kind, [str(t)[5:13] for t in stamps], lb, ub, oc)
+                label = 'df_slice(%s %s, %s, %s, %r)' % (kind, [str(t)[5:13] if not case.get('sub') else str(t)[5:] for t in stamps], lb, ub, oc)
                 sig = dict(oc=oc, kind=kind, wrap=wrap, lb='none' if lh is None else 'on-point' if lh in present else 'off-point',
                            ub='none' if uh is None else 'on-point' if uh in present else 'off-point', empty_index=not pts)
                 try:
